@@ -342,7 +342,7 @@ public:
     }
 
     base_array<T> operator-() const noexcept {
-        base_array<T> r{_vec};
+        base_array<T> r(_vec);
         for (int i = 0; i < r.size(); ++i) {
             r[i] = -r[i];
         }
